@@ -69,7 +69,7 @@ def gen(rng, tier):
         small = small[:400] + rng.sample(small[400:], min(2600, max(0, len(small) - 400)))
     for t in small:
         cases.append((t, [], "exhaustive-small"))
-    for _ in range(2500 if tier == "quick" else 30000):
+    for _ in range(6000 if tier == "quick" else 60000):
         t = text.rand_tree(rng, rng.choice([1, 2, 3, 4, 6, 9]), max_arity=rng.choice([2, 3, 6]), min_arity=1)
         gb = [text.rand_ident(rng) for _ in range(rng.choice([0, 0, 1, 2, 8]))]
         cases.append((t, gb, "random"))
